@@ -238,6 +238,48 @@ theorem findGrid_tabPoints (div fft : N3) (hd : 0 < div.1 ∧ 0 < div.2.1 ∧ 0 
 example : findGrid ([(1,0,2), (0,0,0), (1,0,0), (0,0,1), (0,0,2), (1,0,1)].map (toQ (2, 1, 3))) = (2, 1, 3) := by
   decide +kernel
 
+/-! ## T4' — the text writer: every grid point is written by exactly one writer process -/
+
+/-- For any number of points `n` and any chunk length `npp > 0`, every position `p < n` of the flattened (C-ordered)
+    band lies in exactly one of the chunks `[(i, i+npp) for i in range(0, n, npp)]`. -/
+theorem chunk_cover (n npp p : Nat) (hnpp : 0 < npp) (hp : p < n) :
+    ∃ c, (c * npp, c * npp + npp) ∈ chunkBounds n npp ∧ c * npp ≤ p ∧ p < c * npp + npp ∧
+      ∀ c', c' * npp ≤ p → p < c' * npp + npp → c' = c := by
+  refine ⟨p / npp, ?_, Nat.div_mul_le_self p npp, ?_, ?_⟩
+  · unfold chunkBounds
+    rw [List.mem_map]
+    refine ⟨p / npp, ?_, rfl⟩
+    rw [List.mem_range, Nat.lt_iff_add_one_le, Nat.le_div_iff_mul_le hnpp]
+    have := Nat.div_mul_le_self p npp
+    rw [Nat.add_mul, Nat.one_mul]
+    omega
+  · have := Nat.lt_div_mul_add hnpp (a := p)
+    rw [Nat.mul_comm] at this
+    rw [Nat.mul_comm]; exact this
+  · intro c' h1 h2
+    apply Nat.le_antisymm
+    · exact (Nat.le_div_iff_mul_le hnpp).2 h1
+    · have : p / npp < c' + 1 := by
+        rw [Nat.div_lt_iff_lt_mul hnpp, Nat.add_mul, Nat.one_mul]; exact h2
+      omega
+
+/-- the chunk length chosen for `npar` processes is positive whenever there is something to write -/
+theorem nppproc_pos (n npar : Nat) (hn : 0 < n) (hnpar : 0 < npar) : 0 < nppproc n npar := by
+  unfold nppproc
+  by_cases h : n % npar > 0
+  · simp [h]
+  · have h0 : n % npar = 0 := by omega
+    have hle : npar ≤ n := Nat.le_of_dvd hn (Nat.dvd_of_mod_eq_zero h0)
+    simp [h]; exact ⟨hnpar, hle⟩
+
+/-- concrete sizes, and the 'balanced arange' variant, which drops the tail when `n` is not a multiple of the chunk -/
+theorem chunk_examples :
+    chunkWrite (List.range 27) (nppproc 27 2) = List.range 27 ∧
+    chunkWrite (List.range 6) (nppproc 6 4) = List.range 6 ∧
+    chunkWrite (List.range 1) (nppproc 1 3) = List.range 1 ∧
+    chunkBoundsArange 27 (27 / 2) = [(0, 13), (13, 26)] := by
+  decide
+
 /-! ## T5 — which degenerate group supplies a selected band -/
 
 /-- If the band groups do not overlap, a selected band gets the value of THE group that contains it. -/
